@@ -276,7 +276,10 @@ impl Report {
         }
         if let Some(m) = &self.machinery {
             eprintln!("MACHINERY ERROR ({}): {}", self.prop, m);
-            exit = 2;
+            // a violation witnessed in a real execution stands; without one a machinery error is never a verdict
+            if exit == 0 {
+                exit = 2;
+            }
         }
         let seed: i128 = std::env::var("VERIF_SEED").ok().and_then(|s| s.parse().ok()).unwrap_or(0);
         let mut cov = J::obj()
